@@ -1073,8 +1073,40 @@ pub fn run(tier: Tier) -> i32 {
     }
     let mut cases: Vec<Idx> = vec![];
     let mut mismatched = 0u64;
-    for (oi, op) in ops.iter().enumerate() {
-        for (ri, resp) in resps.iter().enumerate() {
+    // large-value family: an explicit list outside the product (values, keys and pages around and
+    // above 16 MiB / 32 MiB - sizes at which somebody may have put a limit on a codec)
+    let (n_ops, n_resps) = (ops.len(), resps.len());
+    const MI: usize = 1 << 20;
+    let mut large_cases = 0u64;
+    {
+        let mut add = |ops: &mut Vec<OpShape>, resps: &mut Vec<RespShape>, op: OpShape, resp: RespShape, hosts: &[Host]| {
+            ops.push(op);
+            resps.push(resp);
+            for api in [Api::Capability, Api::Command] {
+                for host in hosts {
+                    cases.push(Idx { op: ops.len() - 1, resp: resps.len() - 1, api: api.clone(), host: host.clone() });
+                    large_cases += 1;
+                }
+            }
+        };
+        let binary = [Host::TypedCore, Host::BincodeBridge];
+        for n in [16 * MI - 4096, 16 * MI + 4096, 32 * MI + 4096] {
+            let big = pattern(n);
+            add(&mut ops, &mut resps, OpShape::Get { key: format!("big-{n}") }, RespShape::Value(Some(big.clone())), &binary);
+            add(&mut ops, &mut resps, OpShape::Set { key: format!("big-{n}"), value: big.clone() }, RespShape::Value(Some(big.clone())), &binary);
+            add(&mut ops, &mut resps, OpShape::Delete { key: format!("big-{n}") }, RespShape::Value(Some(big)), &binary);
+        }
+        // a page whose keys add up to ~19 MiB, a key of 17 MiB
+        add(&mut ops, &mut resps, OpShape::ListKeys { prefix: "big-page".into(), cursor: 0 }, RespShape::Page((0..300).map(|i| format!("{i:05}-{}", "k".repeat(64 * 1024))).collect(), 7), &binary);
+        add(&mut ops, &mut resps, OpShape::Get { key: "K".repeat(17 * MI) }, RespShape::Value(None), &binary);
+        add(&mut ops, &mut resps, OpShape::Exists { key: "E".repeat(17 * MI) }, RespShape::Present(true), &binary);
+        // JSON writes a byte as up to four characters: 2 MiB of value is ~7 MiB of text
+        let big = pattern(2 * MI + 1);
+        add(&mut ops, &mut resps, OpShape::Get { key: "big-json".into() }, RespShape::Value(Some(big.clone())), &[Host::JsonBridge]);
+        add(&mut ops, &mut resps, OpShape::Set { key: "big-json".into(), value: big.clone() }, RespShape::Value(Some(big)), &[Host::JsonBridge]);
+    }
+    for (oi, op) in ops.iter().enumerate().take(n_ops) {
+        for (ri, resp) in resps.iter().enumerate().take(n_resps) {
             if !matches(op, resp) {
                 mismatched += 1;
                 continue;
@@ -1193,8 +1225,9 @@ pub fn run(tier: Tier) -> i32 {
             "apis": ["capability API with callback", "capability API async (through Compose)", "command API"],
             "hosts": ["typed Core", "typed AppTester", "directly held Command (command API only)", "bincode Bridge (shell side encoded by hand)", "JSON BridgeWithSerializer (shell side built by hand)"],
         },
-        "operations": ops.len(),
-        "responses": resps.len(),
+        "large_value_family": {"cases": large_cases, "what": "explicit list outside the product: get / set / delete with values of 16 MiB - 4 KiB, 16 MiB + 4 KiB, 32 MiB + 4 KiB, a page of 300 keys of 64 KiB, keys of 17 MiB (typed core and bincode bridge); values of 2 MiB + 1 through the JSON bridge; capability and command API"},
+        "operations": n_ops,
+        "responses": n_resps,
         "mismatched_pairs_outside_the_property": mismatched,
         "cases_per_api_and_host": per_host,
         "value_conversion_cases": vc_cases,
